@@ -52,7 +52,8 @@ type C08Sc struct {
 	StalledShutdown bool `json:"stalled_shutdown,omitempty"`
 }
 
-var c08Outcomes = []string{"ok", "ok", "ok", "et", "ep", "pe", "ps", "pS", "pi", "pn", "y2,ok", "sl300,ok", "sL300,ok", "sl5000,ok", "sL5000,ok", "y3,et"}
+var c08Outcomes = []string{"ok", "ok", "ok", "et", "ep", "pe", "ps", "pS", "pi", "pn", "y2,ok", "sl300,ok", "sL300,ok", "sl5000,ok", "sL5000,ok", "y3,et",
+	"pk", "pK", "pm", "sl2000,ps", "sl5000,pn", "sL300,pe", "sl3000,cx,pk", "y2,pm"}
 
 func genSrvReq(g *simrt.Tape) *ReqSc {
 	rs := &ReqSc{Version: g.Draw(5), Option: g.Draw(3)}
